@@ -38,6 +38,8 @@ package mangos
 //@
 //@ func newMsg
 //@   own_primitive
+//@   requires sz >= 0
+//@   ensures result != nil && len(result.bbuf) == 0 && cap(result.bbuf) == sz && result.bsize == sz && len(result.hbuf) == 0
 //@
 //@ func (*Message).Free
 //@   own_primitive
@@ -47,9 +49,14 @@ package mangos
 //@
 //@ func (*Message).MakeUnique
 //@   own_primitive
+//@   ensures result != nil && eqseq(result.Body, old(m.Body)) && eqseq(result.Header, old(m.Header))
+//@   ensures old(arrof(m.Header) != arrof(m.Body)) ==> arrof(result.Header) != arrof(result.Body)
 //@
 //@ func (*Message).Dup
 //@   own_primitive
+//@   ensures result != nil && result != m && eqseq(result.Body, old(m.Body)) && eqseq(result.Header, old(m.Header))
+//@   ensures fresh_arr(result.Header) && fresh_arr(result.Body) && arrof(result.Header) != arrof(result.Body)
+//@   ensures unchanged(m.Body, m.Header)
 //@
 //@ interface ProtocolPipe.RecvMsg
 //@   ensures result != nil ==> arrof(result.Header) != arrof(result.Body)
